@@ -143,9 +143,16 @@ def make_test(a, exe, wd):
     @given(st.data())
     def test(data):
         d = data.draw
-        npools = d(st.integers(1, 20))
+        npools = d(st.sampled_from([1, 2, 2, 3, 3, 4, 5, 7, 10, 15, 16, 17, 20, 33]))
         pools = [[d(st.sampled_from([0, 0, 1, 2, 3, 5, 10, 17, 40])), d(st.integers(0, 1)), d(st.sampled_from([0, 0, 50, 400]))] for _ in range(npools)]
-        ops = d(tree_strategy(npools))
+        if d(st.integers(0, 2)) == 0:
+            # pure left fold compose(compose(compose(p0, p1), p2), ...): every pool after the second is APPENDED to the same
+            # compound object (the other shapes mostly build nested two-element compounds), which is what grows its array
+            ops = [0]
+            for q in range(1, npools):
+                ops += [q, -1]
+        else:
+            ops = d(tree_strategy(npools))
         case = dict(pools=pools, ops=ops, threads=d(st.sampled_from([1, 2, 3, 4, 8, 16])), sched=d(st.sampled_from(SCHEDS)), tq_ms=3000)
         tries = 0
         while True:
